@@ -295,6 +295,16 @@ class Matcher:
                         i += 2
                         j += 1
                         continue
+                # a possibly empty text/byte run written as "nothing or the run" on one side only
+                if a.kind in ('alt', 'tryalt') and b.kind not in ('alt', 'tryalt') and (not a.a or not a.b):
+                    inner = a.a or a.b
+                    if len(inner) == 1 and (bytestring_like(inner[0]) or inner[0].kind.startswith('t:')) and \
+                            (bytestring_like(b) or b.kind.startswith('t:')) and self.match(inner[0], b, where):
+                        self.c.pairs.append((inner[0], b))
+                        self.c.expanded[id(a)] = [inner[0]]
+                        i += 1
+                        j += 1
+                        continue
                 r = self.match(a, b, where)
                 if r:
                     self.c.pairs.append((a, b))
@@ -359,6 +369,8 @@ class Matcher:
             return True
         if ka.startswith('t:') and kb.startswith('t:'):
             return text_compatible(ka[2:], kb[2:])
+        if {ka, kb} <= {'text', 't:string_array', 't:parsable_array', 't:string', 't:string_by_length'} and 'text' in (ka, kb):
+            return True
         if {ka, kb} == {'alt', 'tryalt'}:
             ka = kb = 'alt'
         if ka != kb:
